@@ -29,6 +29,7 @@ import (
 
 	"github.com/restic/restic/internal/backend"
 	"github.com/restic/restic/internal/repository"
+	"github.com/restic/restic/internal/repository/index"
 	"github.com/restic/restic/internal/restic"
 	"github.com/restic/restic/internal/verifshim/detrand"
 	"github.com/restic/restic/internal/verifshim/gatebe"
@@ -48,15 +49,17 @@ type verifC44Save struct {
 }
 
 type verifC44Prog struct {
-	name   string
-	savers map[string][]verifC44Save // registered saver goroutines (waited for inside the callback)
-	nowait []verifC44Save            // async saves issued by the callback goroutine itself, not waited for
+	name      string
+	savers    map[string][]verifC44Save // registered saver goroutines (waited for inside the callback)
+	nowait    []verifC44Save            // async saves issued by the callback goroutine itself, not waited for
+	fullIndex bool                      // index.Full hook: every index is uploaded as soon as a pack was stored
 }
 
 type verifC44Accepted struct {
 	h    restic.BlobHandle
 	data []byte
 	what string
+	dup  bool // saved with storeDuplicate
 }
 
 type verifC44Exec struct {
@@ -115,6 +118,12 @@ func TestVerif_C44(t *testing.T) {
 		"S1": {{"c1", D, 1500, 1001, false, false}, {"y", D, 300, 21, false, false}},
 		"S2": {{"c2", T, 2500, 1002, false, false}, {"c3", D, 1000, 1003, true, false}},
 	}})
+	// every index counts as "full" (real repositories: 50000 blobs / 10 minutes): an index file is uploaded
+	// right after each pack while other uploads complete; blobs saved earlier in the run are submitted again
+	progs = append(progs, verifC44Prog{name: "full-index-resubmit", fullIndex: true, savers: map[string][]verifC44Save{
+		"S1": {{"a", D, 600, 31, false, false}, {"b", D, 600, 32, false, false}, {"a2", D, 600, 31, false, false}},
+		"S2": {{"c", D, 600, 33, false, false}, {"d", D, 600, 34, false, false}, {"b2", D, 600, 32, false, false}},
+	}})
 	if r.Thorough() {
 		progs = append(progs, verifC44Prog{name: "three-savers", savers: map[string][]verifC44Save{
 			"S1": {{"p", D, 999, 15, false, false}, {"q", D, 1000, 16, false, false}},
@@ -130,6 +139,11 @@ func TestVerif_C44(t *testing.T) {
 				st := &verifC44Exec{store: gatebe.NewStoreFrom(base, nil)}
 				x.Data = st
 				st.restore = detrand.Install(3)
+				if prog.fullIndex {
+					oldFull, inner := index.Full, st.restore
+					index.Full = func(*index.Index) bool { return true }
+					st.restore = func() { index.Full = oldFull; inner() }
+				}
 				armed := false
 				be := &gatebe.Backend{S: st.store, Proc: "up", Conns: 2, AtomicReplace: true, X: func() *xplore.Exec {
 					if armed {
@@ -153,7 +167,7 @@ func TestVerif_C44(t *testing.T) {
 							st.errs = append(st.errs, fmt.Sprintf("save %s: %v", s.name, err))
 							return
 						}
-						st.accepted = append(st.accepted, verifC44Accepted{h: h, data: buf, what: s.name})
+						st.accepted = append(st.accepted, verifC44Accepted{h: h, data: buf, what: s.name, dup: s.dup})
 					}
 					if s.async {
 						if done != nil {
@@ -236,9 +250,14 @@ func TestVerif_C44(t *testing.T) {
 				} else if err := fresh.LoadIndex(ctx, restic.NoopTerminalCounterFactory); err != nil {
 					bad = append(bad, "LoadIndex: "+err.Error())
 				} else {
+					// identical content is stored once; a further copy only where storeDuplicate asked for it
 					want := map[restic.BlobHandle]int{}
 					for _, a := range st.accepted {
-						want[a.h]++
+						if want[a.h] == 0 {
+							want[a.h] = 1
+						} else if a.dup {
+							want[a.h]++
+						}
 					}
 					for _, a := range st.accepted {
 						pbs := fresh.LookupBlob(a.h)
